@@ -493,7 +493,7 @@ def make_shoc_standard(rng, *, nj=None, ni=None, holes=None, coord_style=None, m
 # ---------------------------------------------------------------------------
 
 def dress(model, rng, *, time=None, depth=None, band=None, per_kind=(1, 2), missing=0.15, dtypes=None,
-          nongrid=1, permute=True, kinds=None, max_extra=3, depth_positive=None):
+          nongrid=1, permute=True, kinds=None, max_extra=3, depth_positive=None, index_dim=False):
     from .base import DTYPES, add_variables, time_axis
     extras = []
     time = chance(rng, 0.7) if time is None else time
@@ -517,6 +517,10 @@ def dress(model, rng, *, time=None, depth=None, band=None, per_kind=(1, 2), miss
         extras.append((ddim, nk))
     if band:
         extras.append(('band', int(rng.integers(2, 4))))
+    if index_dim and not any('index' in k.dims for k in model.kinds.values()):
+        # a non-spatial dimension that happens to be called 'index' (a record number from pandas, say): the default name
+        # of the linear dimension is then taken
+        extras.append(('index', int(rng.integers(2, 4))))
     add_variables(model, rng, per_kind=per_kind, extras=extras, missing=missing, dtypes=dtypes or DTYPES,
                   nongrid=nongrid, permute=permute, kinds=kinds, max_extra=max_extra)
     return model
